@@ -115,7 +115,10 @@ func TestE2E(t *testing.T) {
 				c.Steps = append(c.Steps, sim.Step{Op: "connect", C: ci, Node: rapid.IntRange(0, c.Nodes-1).Draw(t, "node"), ClientID: fmt.Sprintf("c%d", ci), KeepAlive: 6000})
 				continue
 			}
-			switch x := rapid.IntRange(0, 11).Draw(t, "op"); {
+			switch x := rapid.IntRange(0, 12).Draw(t, "op"); {
+			case x == 12:
+				// an operator clears a retained message through a node's DeleteRetainedMessage RPC
+				c.Steps = append(c.Steps, sim.Step{Op: "rpcclear", Node: rapid.IntRange(0, c.Nodes-1).Draw(t, "rpcnode"), Topic: rapid.SampledFrom(e2eTopics).Draw(t, "topic")})
 			case x < 5:
 				payload++
 				st := sim.Step{Op: "pub", C: ci, Topic: rapid.SampledFrom(e2eTopics).Draw(t, "topic"), Payload: fmt.Sprintf("r%d", payload), Retain: true, PQoS: byte(rapid.IntRange(0, 2).Draw(t, "pqos"))}
